@@ -2,6 +2,7 @@ package main
 
 import (
 	"bytes"
+	"os"
 	"encoding/base64"
 	"encoding/json"
 	"fmt"
@@ -31,10 +32,11 @@ type runVariant struct {
 	debug   bool   // --debug
 	inPath  string // stdin | dash | file
 	outFile bool
+	prefill bool // the -o file exists already and is longer than the new output
 }
 
 func (v runVariant) String() string {
-	return fmt.Sprintf("procs=%d race=%v debug=%v in=%s out-o=%v", v.procs, v.race, v.debug, v.inPath, v.outFile)
+	return fmt.Sprintf("procs=%d race=%v debug=%v in=%s out-o=%v existing-file=%v", v.procs, v.race, v.debug, v.inPath, v.outFile, v.prefill)
 }
 
 // runClass executes one variant and returns (success, output bytes, result).
@@ -66,19 +68,23 @@ func runClass(c *core.Ctx, cl detClass, v runVariant) (bool, []byte, *runner.Res
 	var outPath string
 	if v.outFile {
 		outPath = c.Scratch.Path("c12.out")
+		if v.prefill {
+			os.WriteFile(outPath, bytes.Repeat([]byte("previous content of the output file\n"), 40000), 0o644)
+		}
 		args = append(args, "-o", outPath)
 	}
 	res := c.Crd.Run(opt, args...)
 	c.Eval(1)
 	out := res.Stdout
-	if v.outFile {
+	if v.outFile && res.OK() {
+		// a failing command has no result: whatever it left (or did not touch) at the -o path is not compared
 		out = readFileOrNil(outPath)
 	}
 	return res.OK(), out, res
 }
 
 func checkC12(c *core.Ctx) {
-	c.Rule("every data-producing command (text parse, text conv degree|syllable, write, write event|parse|conv, info attr list|describe, info chord list|describe, info key list|describe|conv, gen attr, midi port in|out) x several inputs (also failing ones; ASTs of 5, 99, 100, 101 and 5,000 nodes around the iterator's channel capacity) is run repeatedly and with one dimension varied at a time and in random combinations: GOMAXPROCS 1/2/4/8/16, race-detector build, --debug, input by stdin / - / FILE, output by stdout / -o; " +
+	c.Rule("every data-producing command (text parse, text conv degree|syllable, write, write event|parse|conv, info attr list|describe, info chord list|describe, info key list|describe|conv, gen attr, midi port in|out) x several inputs (also failing ones; ASTs of 5, 99, 100, 101 and 5,000 nodes around the iterator's channel capacity) is run repeatedly and with one dimension varied at a time and in random combinations: GOMAXPROCS 1/2/4/8/16, race-detector build, --debug, input by stdin / - / FILE, output by stdout / -o (fresh file and an existing longer file); " +
 		"stdout (or the -o file) and success must equal the first run byte for byte; any `WARNING: DATA RACE` of the race build is a violation; in-process (race build of the worker): the channel iterator must yield exactly the document order under draining, early break, yielding and sleeping consumers without deadlock or leaked goroutines; " +
 		"non-trivial = class in which >= 3 dimensions were varied and whose output has >= 64 bytes; distinct by class")
 	c.Assume("byte equality", "Go race detector (reports races of the schedules that occurred)", "stderr is not compared", "--help output is not a data-producing command")
@@ -214,6 +220,8 @@ func checkC12(c *core.Ctx) {
 			v := base
 			v.outFile = true
 			variants = append(variants, v)
+			v.prefill = true
+			variants = append(variants, v)
 		}
 		for k := 0; k < combos; k++ {
 			v := runVariant{procs: []int{0, 1, 2, 4, 8, 16}[r.Intn(6)], race: r.Intn(4) == 0, debug: r.Intn(3) == 0, inPath: "stdin"}
@@ -222,6 +230,7 @@ func checkC12(c *core.Ctx) {
 			}
 			if cl.writes {
 				v.outFile = r.Intn(3) == 0
+				v.prefill = v.outFile && r.Intn(2) == 0
 			}
 			variants = append(variants, v)
 		}
